@@ -1044,7 +1044,7 @@ impl<'i> RecipeCollector<'i, '_> {
         }
 
         // Warn if scaling lock is used unnecessarily (on non-ingredients or text values)
-        if has_scaling_lock {
+        if has_scaling_lock && (!is_ingredient || is_text) {
             let mut warning = warning!(
                 "Unnecessary scaling lock modifier",
                 label!(value.span(), "this scaling lock has no effect")
